@@ -32,11 +32,15 @@ EXHAUST = ('F7S', 'F7S8', 'FR', 'XSHL')
 
 
 class DealMonitor(Monitor):
-    def __init__(self):
+    def __init__(self, model_factory=None, prefix='C10'):
+        self.model_factory = model_factory
+        self.prefix = prefix
         self.m = None
         self.first_in_call = None
 
     def ensure(self, st):
+        if self.m is None and self.model_factory is not None:
+            self.m = self.model_factory(st)
         if self.m is None:
             streets = [(s.card_burning_status, tuple(s.hole_dealing_statuses), s.board_dealing_count, s.draw_status)
                        for s in st.streets]
@@ -54,7 +58,7 @@ class DealMonitor(Monitor):
         try:
             self.m.on(op, default_index)
         except DealError as e:
-            raise Violation('C10.' + e.rule, f'{e} [operation #{len(st.operations)} {op!r}; log {opseq(st)}]', rule=e.rule)
+            raise Violation(self.prefix + '.' + e.rule, f'{e} [operation #{len(st.operations)} {op!r}; log {opseq(st)}]', rule=e.rule)
 
     def on_quiescent(self, world):
         st = world.state
@@ -62,18 +66,18 @@ class DealMonitor(Monitor):
         m = self.m
         if st.actor_index is not None:
             if m.in_phase and not m.complete():
-                raise Violation('C10.incomplete', f'player {st.actor_index} is asked to act but street {m.street} is not '
+                raise Violation(self.prefix + '.incomplete', f'player {st.actor_index} is asked to act but street {m.street} is not '
                                 f'completely dealt (hole pending {[len(p) for p in m.pend_hole]}, board pending {m.pend_board})',
                                 rule='incomplete')
             for i in range(st.player_count):
                 have = list(zip(st.hole_cards[i], st.hole_card_statuses[i]))
                 if have != m.hands[i]:
-                    raise Violation('C10.hands', f'at a betting decision player {i} holds {have}, the street definitions '
+                    raise Violation(self.prefix + '.hands', f'at a betting decision player {i} holds {have}, the street definitions '
                                     f'and the log give {m.hands[i]}', rule='hands')
             want_board = sum(s.board_dealing_count for s in st.streets[:m.street + 1])
             got = [len(list(st.get_board_cards(b))) for b in st.board_indices]
             if m.fallbacks == 0 and any(g != want_board for g in got):
-                raise Violation('C10.board', f'at a betting decision the boards hold {got} cards, prescribed {want_board}', rule='board')
+                raise Violation(self.prefix + '.board', f'at a betting decision the boards hold {got} cards, prescribed {want_board}', rule='board')
 
 
 def run(ch, ctx):
